@@ -33,6 +33,7 @@ RULE = (
     "independently with posixpath against the caller, leaves the root (an escape attempt) or "
     "contains a dot segment / backslash / doubled slash and resolves inside."
 )
+RULE += ' added since: absolute URIs that name a path outside every root (with and without the root as textual prefix), and an explicit assertion that every escaping URI is rejected (escape-not-rejected) both directly and through tags.'
 ASSUMPTIONS = [
     "symlinks inside a root are not part of the statement",
     "the empty URI is not exercised through tags (adjust_uri indexes uri[0])",
